@@ -69,12 +69,14 @@ env_do_alloc(size_t sz, int zero)
 	 * R3).  Small sizes are split into one allocation site per concrete size:
 	 * a concrete request takes exactly one branch; a symbolic request that the
 	 * solver knows to be small becomes a pointer to one of <= 24 fixed-size
-	 * objects instead of one object of symbolic size. */
+	 * objects instead of one object of symbolic size.  Opt-in (env_alloc_small_only):
+	 * for harnesses whose symbolic sizes are small by construction the split is
+	 * slower than one symbolic-size object (measured on lmq/msgq resize). */
 #define ENV_CASE(n)                                   \
 	case n:                                       \
 		p = zero ? calloc(1, n) : malloc(n);  \
 		break;
-	switch (sz) {
+	switch (env_alloc_small_only ? sz : (size_t) 0) {
 		ENV_CASE(1) ENV_CASE(2) ENV_CASE(3) ENV_CASE(4) ENV_CASE(5) ENV_CASE(6) ENV_CASE(7) ENV_CASE(8)
 		ENV_CASE(9) ENV_CASE(10) ENV_CASE(11) ENV_CASE(12) ENV_CASE(13) ENV_CASE(14) ENV_CASE(15) ENV_CASE(16)
 		ENV_CASE(17) ENV_CASE(18) ENV_CASE(19) ENV_CASE(20) ENV_CASE(21) ENV_CASE(22) ENV_CASE(23) ENV_CASE(24)
